@@ -141,7 +141,7 @@ def _write_replay(pid, failure):
         'case': failure['case'],
     }
     path = d / f'{_digest([failure["clause"], failure["case"]])}.json'
-    path.write_text(json.dumps(doc, indent=1, sort_keys=True, default=str))
+    path.write_text(json.dumps(doc, indent=1, default=str))  # key order is significant (mapping-order cases)
     return path.relative_to(ROOT)
 
 
